@@ -37,7 +37,7 @@ def strategy_case(draw):
         c["routine"] = "amen_solve"
         c["local_solver"] = 1
         return c
-    c = draw(c11.strategy_case().filter(lambda x: x["routine"] == "fast_matvec"))
+    c = draw(c11.strategy_case().filter(lambda x: x["routine"] == "fast_matvec" and x.get("family") is None))
     return c
 
 
